@@ -2,7 +2,9 @@
 
 // Harness for C28 (concurrent API use gives the same results as sequential use).
 //
-//	c28 <G> <iters> <seed> [serial]     stdin: one job per line  "<op> <path> [virtual-name]"   (op: build | run | fmt)
+//	c28 sched                            stdin: "sched <turns>" lines, deterministic replay of a schedule on the real wir package (see schedReplay)
+//	c28 <G> <iters> <seed> [flags]       flags (comma separated): serial | lockcompile | once (single baseline run)
+//	                                     stdin: one job per line  "<op> <path> [virtual-name]"   (op: build | run | fmt)
 //
 // Phase 1 (sequential baseline): every job is executed once, alone; its canonical result is recorded:
 //
@@ -43,7 +45,112 @@ import (
 	"sync"
 
 	"wa-lang.org/wa/api"
+	"wa-lang.org/wa/internal/backends/compiler_wat"
+	"wa-lang.org/wa/internal/backends/compiler_wat/wir"
+	"wa-lang.org/wa/internal/token"
+	"wa-lang.org/wa/internal/types"
+	"wa-lang.org/wa/internal/wat/watutil"
+	"wa-lang.org/wa/internal/wazero"
+	"wa-lang.org/wa/internal/zz_verif/vh"
 )
+
+// ---- "lockcompile" experiment: the same three public operations, re-assembled from the same steps as
+// api.BuildFile / api.RunCode, with ONE difference: compiler_wat.New().Compile(prog) runs under a mutex.
+// If the failures of the free run disappear here, the shared state responsible lives inside Compile.
+var lockCompile bool
+var compileMu sync.Mutex
+
+func buildFileLockedCompile(filename, src string) (mainFunc string, wat, fset []byte, err error) {
+	prog, err := api.LoadProgramFile(api.DefaultConfig(), filename, src)
+	if err != nil || prog == nil {
+		return "", nil, nil, err
+	}
+	if prog.Manifest.W2Mode {
+		mainFunc = prog.Manifest.MainPkg + "." + token.K_主控
+	} else {
+		mainFunc = prog.Manifest.MainPkg + "." + token.K_main
+	}
+	compileMu.Lock()
+	watOut, err := compiler_wat.New().Compile(prog)
+	compileMu.Unlock()
+	fset = prog.Fset.ToJson()
+	return mainFunc, []byte(watOut), fset, err
+}
+
+func runCodeLockedCompile(filename, code string) (out []byte, err error) {
+	mainFunc, watBytes, fsetBytes, err := buildFileLockedCompile(filename, code)
+	if err != nil {
+		return
+	}
+	wasmBytes, err := watutil.Wat2Wasm(filename, watBytes)
+	if err != nil {
+		return
+	}
+	stdout, stderr, err := wazero.RunWasm(filename, wasmBytes, fsetBytes, mainFunc)
+	out = append(stdout, stderr...)
+	return
+}
+
+// ---- "sched" mode: a deterministic, single-goroutine replay of a schedule on the REAL wir package.
+// begin(s): what Compile does first — m_s = wir.NewModule(..); wir.SetCurrentModule(m_s)
+// read(s):  what the value constructors do during s's compilation — wir.NewConst(<fresh literal>, m_s.STRING)
+//           allocates the literal in currentModule.DataSeg; the module whose data segment grew is the one "seen"
+// finish(s): s's compilation returns.
+// Output: the read log "reader:seen,…" in the format of the Lean driver (wamodel_c28 run 0 …).
+func schedReplay(turns string) string {
+	mods := map[int]*wir.Module{}
+	active := map[int]bool{}
+	var order []int
+	var log []string
+	n := 0
+	for _, t := range strings.Split(turns, ",") {
+		if t == "-" || t == "" {
+			continue
+		}
+		s, err := strconv.Atoi(t[:len(t)-1])
+		if err != nil {
+			return "bad-op"
+		}
+		switch t[len(t)-1] {
+		case 'b':
+			if active[s] {
+				continue
+			}
+			m := wir.NewModule(1024)
+			if _, ok := mods[s]; !ok {
+				order = append(order, s)
+			}
+			mods[s] = m
+			wir.SetCurrentModule(m)
+			active[s] = true
+		case 'r':
+			if !active[s] {
+				continue
+			}
+			before := map[int]int{}
+			for k, m := range mods {
+				before[k] = m.DataSeg.Size()
+			}
+			n++
+			wir.NewConst(fmt.Sprintf("c28-literal-%d-of-session-%d", n, s), mods[s].STRING)
+			seen := "n"
+			for _, k := range order {
+				if mods[k].DataSeg.Size() != before[k] {
+					seen = strconv.Itoa(k)
+				}
+			}
+			log = append(log, fmt.Sprintf("%d:%s", s, seen))
+		case 'f':
+			delete(active, s)
+		default:
+			return "bad-op"
+		}
+	}
+	if len(log) == 0 {
+		return "-"
+	}
+	return strings.Join(log, ",")
+}
 
 type job struct {
 	op, path, vname, src string
@@ -86,13 +193,26 @@ func exec(j *job) (res string, panicMsg string) {
 	}()
 	switch j.op {
 	case "build":
-		mainFn, wat, _, err := api.BuildFile(api.DefaultConfig(), j.vname, j.src)
+		var mainFn string
+		var wat []byte
+		var err error
+		if lockCompile {
+			mainFn, wat, _, err = buildFileLockedCompile(j.vname, j.src)
+		} else {
+			mainFn, wat, _, err = api.BuildFile(api.DefaultConfig(), j.vname, j.src)
+		}
 		if err != nil {
 			return "err " + oneLine(err.Error()), ""
 		}
 		return "ok " + sha([]byte(mainFn), wat), ""
 	case "run":
-		out, err := api.RunCode(api.DefaultConfig(), j.vname, j.src)
+		var out []byte
+		var err error
+		if lockCompile {
+			out, err = runCodeLockedCompile(j.vname, j.src)
+		} else {
+			out, err = api.RunCode(api.DefaultConfig(), j.vname, j.src)
+		}
 		if err != nil {
 			return "err " + oneLine(err.Error()) + " " + sha(out), ""
 		}
@@ -108,14 +228,35 @@ func exec(j *job) (res string, panicMsg string) {
 }
 
 func main() {
+	if len(os.Args) >= 2 && os.Args[1] == "sched" {
+		vh.Loop(func(f []string, line string) string {
+			if len(f) != 2 || f[0] != "sched" {
+				return "bad-op"
+			}
+			return schedReplay(f[1])
+		})
+		return
+	}
 	if len(os.Args) < 4 {
-		fmt.Fprintln(os.Stderr, "usage: c28 G iters seed [serial]")
+		fmt.Fprintln(os.Stderr, "usage: c28 G iters seed [serial|lockcompile|once,...]  |  c28 sched")
 		os.Exit(2)
 	}
 	G, _ := strconv.Atoi(os.Args[1])
 	iters, _ := strconv.Atoi(os.Args[2])
 	seed, _ := strconv.ParseInt(os.Args[3], 10, 64)
-	serial := len(os.Args) > 4 && os.Args[4] == "serial"
+	serial, once := false, false
+	if len(os.Args) > 4 {
+		for _, fl := range strings.Split(os.Args[4], ",") {
+			switch fl {
+			case "serial":
+				serial = true
+			case "lockcompile":
+				lockCompile = true
+			case "once":
+				once = true
+			}
+		}
+	}
 
 	var jobs []*job
 	sc := bufio.NewScanner(os.Stdin)
@@ -143,8 +284,14 @@ func main() {
 	usable := make([]bool, len(jobs))
 	unstable := 0
 	for i, j := range jobs {
+		wasLocked := lockCompile
+		lockCompile = false // the baseline is always the PUBLIC api, alone
 		r1, p1 := exec(j)
-		r2, p2 := exec(j)
+		r2, p2 := r1, p1
+		if !once {
+			r2, p2 = exec(j)
+		}
+		lockCompile = wasLocked
 		if p1 != "" {
 			r1 = "panic " + p1
 		}
@@ -160,6 +307,8 @@ func main() {
 		usable[i] = true
 		fmt.Fprintf(out, "BASE %d %s\n", i, r1)
 	}
+	uni0 := types.VerifC28UniverseChildren()
+	fmt.Fprintf(out, "UNIVERSE-CHILDREN-AFTER-BASELINE %d\n", uni0)
 	out.Flush()
 
 	var idx []int
@@ -226,5 +375,6 @@ func main() {
 	for _, l := range lines {
 		fmt.Fprintln(out, l)
 	}
+	fmt.Fprintf(out, "UNIVERSE-CHILDREN-AT-END %d\n", types.VerifC28UniverseChildren())
 	fmt.Fprintf(out, "DONE calls=%d wrong=%d panics=%d unstable=%d\n", calls, wrong, panics, unstable)
 }
